@@ -1,10 +1,128 @@
 """Masyu: a single loop through cell centres (or no line); white circle: passes straight and turns in at least one of the
-two neighbouring cells on the line; black circle: turns, and goes straight through both neighbouring cells."""
+two neighbouring cells on the line; black circle: turns, and goes straight through both neighbouring cells.
+
+Large family (shape descriptors ("large", h, w)): boards beyond the reach of base.loops() use the exact frontier enumerator
+slitherlink.enum_loops(), pruned per circle (shape of the line on the circle as soon as its own edges are decided, the
+neighbour condition as soon as the edges of the two neighbours are decided); instances: complete circle sets of seed loops
+and their thinned / altered variants, clue-free boards, circles on the last row / column.
+"""
 
 from . import base
+from .slitherlink import enum_loops, vertex_edges, dirs_of, loop_count, all_loops, seed_loops, dense_family, uniq
 
 OPP = {"U": "D", "D": "U", "L": "R", "R": "L"}
 STEP = {"U": (-1, 0), "D": (1, 0), "L": (0, -1), "R": (0, 1)}
+
+
+OLD_PATH_MAX_VERTICES = 20  # boards of the small ladder keep the original oracle (base.loops + filter)
+SOLUTION_CAP = 400000
+_LARGE = {}
+
+
+def _pearl_ok(c, d, nd):
+    """c: 1 white / 2 black; d: directions of the line on the circle; nd[dr]: directions of the line on the neighbour in
+    direction dr.  The neighbour in direction dr is entered against dr, so the line is straight there iff it leaves by dr."""
+    if len(d) != 2:
+        return False
+    straight = d in ("UD", "LR")
+    if c == 1:
+        return straight and any(dr not in nd[dr] for dr in d)
+    return (not straight) and all(dr in nd[dr] for dr in d)
+
+
+def _checks(h, w, prob):
+    ve = vertex_edges(h, w)
+    checks = []
+    for y in range(h):
+        for x in range(w):
+            c = prob[y][x]
+            if c == 0:
+                continue
+            own = [e for e in ve[y * w + x] if e is not None]
+            around = list(own)
+            for dr in "UDLR":
+                ny, nx = y + STEP[dr][0], x + STEP[dr][1]
+                if 0 <= ny < h and 0 <= nx < w:
+                    around += [e for e in ve[ny * w + nx] if e is not None]
+
+            def shape(E, v=ve[y * w + x], c=c):
+                d = dirs_of(E, v)
+                return len(d) == 2 and (d in ("UD", "LR")) == (c == 1)
+
+            def full(E, y=y, x=x, c=c):
+                d = dirs_of(E, ve[y * w + x])
+                return _pearl_ok(c, d, {dr: dirs_of(E, ve[(y + STEP[dr][0]) * w + x + STEP[dr][1]]) for dr in d})
+
+            checks.append((own, shape))
+            checks.append((around, full))
+    return checks
+
+
+def clues_of(h, w, loop):
+    """Complete circle set of a loop: every cell where the white / black condition holds gets that circle."""
+    ve = vertex_edges(h, w)
+    out = {}
+    blank_on_loop = []
+    for y in range(h):
+        for x in range(w):
+            d = dirs_of(loop, ve[y * w + x])
+            if not d:
+                continue
+            nd = {dr: dirs_of(loop, ve[(y + STEP[dr][0]) * w + x + STEP[dr][1]]) for dr in d}
+            for c in (1, 2):
+                if _pearl_ok(c, d, nd):
+                    out[(y, x)] = c
+            if (y, x) not in out:
+                blank_on_loop.append((y, x))
+    return out, blank_on_loop
+
+
+def _large_instances(h, w, thorough):
+    key = (h, w, thorough)
+    if key in _LARGE:
+        return _LARGE[key]
+
+    def prob(clues):
+        return {"height": h, "width": w, "problem": [[clues.get((y, x), 0) for x in range(w)] for y in range(h)]}
+
+    out = []
+    enumerable = loop_count(h, w) is not None
+    far = (h - 1, w - 1)
+    if enumerable:
+        light = [{}, {far: 2}, {(h - 1, x): 1 for x in range(1, w - 1)} or {far: 1}, {(y, w - 1): 1 for y in range(1, h - 1)} or {far: 1}]
+        if thorough or h == w:
+            light += [{far: 1}, {far: 2, (0, 0): 2}, {(h - 1, 0): 2, (0, w - 1): 2, (h - 1, w // 2): 1}, {(h - 1, w // 2): 2, (h // 2, w - 1): 2}]
+        if thorough:
+            light += [{(h - 1, x): 2 - x % 2 for x in range(w)}, {(y, w - 1): 1 + y % 2 for y in range(h)}]
+        for clues in light if (thorough or h == w) else light[:3]:
+            out.append(prob(clues))
+    if thorough:
+        seeds = seed_loops(h, w, 1 if enumerable else 2, longest=True)
+    else:
+        seeds = seed_loops(h, w, 1)
+    for g in seeds:
+        full, blank = clues_of(h, w, g)
+        fam = dense_family(full, h, w, lambda v, dl, c: 3 - v, thorough)
+        if not thorough and h != w:
+            fam = fam[:2] + fam[3:5]
+        for clues in fam:
+            out.append(prob(clues))
+        # one circle too many: on a loop cell that satisfies neither condition, and on a cell off the loop
+        extra = []
+        if blank:
+            extra.append((blank[0], 1))
+            extra.append((blank[-1], 2))
+        off = [(y, x) for y in range(h) for x in range(w) if (y, x) not in full and (y, x) not in blank]
+        if off:
+            extra.append((off[-1], 1))
+            extra.append((off[0], 2))
+        for c, v in extra if thorough else extra[1:3]:
+            d = dict(full)
+            d[c] = v
+            out.append(prob(d))
+    out = uniq(out)
+    _LARGE[key] = out
+    return out
 
 
 class Masyu(base.Rule):
@@ -12,9 +130,17 @@ class Masyu(base.Rule):
 
     def shapes(self, tier):
         s = [(1, 1), (1, 2), (2, 1), (2, 2), (2, 3), (3, 2), (3, 3), (1, 3), (3, 1)]
-        return s + ([(3, 4), (4, 3)] if tier == "quick" else [(3, 4), (4, 3), (4, 4), (2, 5), (5, 2), (3, 5), (5, 3)])
+        s = s + ([(3, 4), (4, 3)] if tier == "quick" else [(3, 4), (4, 3), (4, 4), (2, 5), (5, 2), (3, 5), (5, 3)])
+        large = [(5, 5), (6, 6), (8, 8), (4, 7), (7, 4), (3, 10), (10, 3), (2, 12), (12, 2), (1, 12), (12, 1)]
+        if tier != "quick":
+            large += [(5, 6), (6, 5), (7, 7), (10, 10), (6, 9), (9, 6), (4, 10), (10, 4), (3, 12), (12, 3), (2, 15), (15, 2)]
+        return s + [("large", h, w) for h, w in large]
 
     def instances(self, shape, cap):
+        if shape[0] == "large":
+            for p in _large_instances(shape[1], shape[2], cap > 1000):
+                yield p
+            return
         h, w = shape
         lays, k = base.layouts(h * w, 0, [1, 2], cap)
         for cells in lays:
@@ -27,6 +153,18 @@ class Masyu(base.Rule):
         return is_sat, base.sols_of(frame)
 
     def readings(self, p):
+        if p["height"] * p["width"] > OLD_PATH_MAX_VERTICES:
+            return [self.readings_large(p)]
+        return self.readings_small(p)
+
+    def readings_large(self, p):
+        h, w = p["height"], p["width"]
+        checks = _checks(h, w, p["problem"])
+        if not checks and loop_count(h, w) is not None:
+            return list(all_loops(h, w))
+        return enum_loops(h, w, checks, cap=SOLUTION_CAP)
+
+    def readings_small(self, p):
         h, w = p["height"], p["width"]
         out = []
         for loop in base.loops(h, w):
@@ -85,3 +223,28 @@ class Masyu(base.Rule):
 
 
 RULE = Masyu()
+
+
+def selftest():
+    """The pruned large-board oracle against the original filter oracle on the small ladder: all layouts with <= 2 circles
+    (<= 3 on the smallest boards), and the dense families of every 3rd loop of 4 x 4 and 3 x 5."""
+    r = RULE
+    n = 0
+    for h, w in [(1, 1), (1, 3), (2, 2), (2, 3), (3, 3), (3, 4), (4, 3), (4, 4), (2, 5), (5, 3)]:
+        lays, k = base.layouts(h * w, 0, [1, 2], 1500)
+        for cells in lays:
+            p = {"height": h, "width": w, "problem": base.grid(cells, h, w)}
+            assert sorted(r.readings_small(p)[0]) == sorted(r.readings_large(p)), p
+            n += 1
+    for h, w in [(4, 4), (3, 5), (5, 3)]:
+        for g in base.loops(h, w)[1::3]:
+            full, blank = clues_of(h, w, g)
+            for clues in dense_family(full, h, w, lambda v, dl, c: 3 - v, True) + [dict(list(full.items()) + [(c, 1)]) for c in blank[:1]]:
+                p = {"height": h, "width": w, "problem": [[clues.get((y, x), 0) for x in range(w)] for y in range(h)]}
+                a = r.readings_small(p)[0]
+                assert sorted(a) == sorted(r.readings_large(p)), p
+                if clues == full:
+                    assert g in a
+                n += 1
+    return n
+
